@@ -8,7 +8,9 @@ pub const UNI_WORDS: &[&str] = &["é", "ß", "İ", "ǅ", "€", "日本", "😀"
 pub const SPECIALS: &[&str] = &[":", "|", "{", "}", "\\", "/", ",", ";", "-", "_", ".", " ", "\t", "\n", "\r", "$", "!", "..", "=", "'", "\"", "*", "+", "?", "^", "(", ")", "[", "]", "#"];
 pub const WS_CHARS: &[char] = &[' ', '\t', '\n', '\u{b}', '\u{c}', '\r', '\u{85}', '\u{a0}', '\u{1680}', '\u{2000}', '\u{2003}', '\u{200a}', '\u{2028}', '\u{2029}', '\u{202f}', '\u{205f}', '\u{3000}'];
 pub const NON_WS_LOOKALIKES: &[char] = &['\u{200b}', '\u{feff}', '\u{180e}', '\u{1c}', '\u{1f}', '\u{0}'];
-pub const SEPS: &[&str] = &[",", " ", ";", "::", "aa", "", "é", "→", "\n", "|", ":", "ab", "-", "\t", ", ", "a", "{", "}", "\\", "日"];
+pub const SEPS: &[&str] = &[",", " ", ";", "::", "aa", "", "é", "→", "\n", "|", ":", "ab", "-", "\t", ", ", "a", "{", "}", "\\", "日",
+    // separators whose escaped spelling puts a special character right before something the grammar's look-aheads test for
+    ":1", ":..", "|upper", "x:-2", "\\}", "\\:", "}|"];
 
 pub fn word(rng: &mut Rng) -> String {
     match rng.below(10) {
